@@ -38,7 +38,10 @@ def readCount (cfg : DecCfg) (inp : Bytes) : Res (Nat × Bytes) :=
     if cfg.signedCount && n ≥ 2147483648 then .error .err
     else match cfg.countLimit with
       | some l => if n > l then .error .err else .ok (n, r)
-      | none => .ok (n, r)
+      | none =>
+        -- the generated code allocates `n` elements right here (`make([]T, size)`), whatever the
+        -- input holds: a count that the remaining input cannot possibly back is a resource blow-up
+        if n > r.length + 65536 then .error .hang else .ok (n, r)
 
 mutual
 def decT (cfg : DecCfg) : Nat → Ty → Bytes → Res (DVal × Bytes)
